@@ -2,6 +2,7 @@ package props
 
 import (
 	"fmt"
+	"reflect"
 	"strings"
 	"sync"
 	"testing"
@@ -158,6 +159,9 @@ func checkC15(c HistoryCase, r *rec.Rec) error {
 		if got := b.Json(); got != snapB {
 			return rec.Violated("document b changed from %s to %s (history: %v)", snapB, got, history)
 		}
+		if !reflect.DeepEqual(opts, jdx.Options(c.Opts)) {
+			return rec.Violated("the option list handed to the calls changed from %v to %v (history: %v)", jdx.Options(c.Opts), opts, history)
+		}
 		if got := dumpDiff(d); got != snapDump {
 			return rec.Violated("the diff value changed (history: %v)\nbefore:\n%safter:\n%s", history, snapDump, got)
 		}
@@ -203,6 +207,29 @@ func checkC15(c HistoryCase, r *rec.Rec) error {
 }
 
 func genC15(t *rapid.T) HistoryCase {
+	if gen.Chance(t, "precisionOption", 12) {
+		// the option list is an input too: Precision(eps) in list mode on
+		// documents whose numbers move by less and by more than eps
+		var pc PairCase
+		for i := 0; i < 4; i++ {
+			pc = genEqPair(t, []string{"list"}, true)
+			if _, ok := jdx.Precision(pc.Opts); ok {
+				break
+			}
+		}
+		if _, ok := jdx.Precision(pc.Opts); ok && !val.IsVoid(val.MustParse(pc.A)) && !val.IsVoid(val.MustParse(pc.B)) {
+			// containers at the same index that differ by more than eps, then a pair within eps
+			eps, _ := jdx.Precision(pc.Opts)
+			a := []val.V{map[string]val.V{"x": 1.0, "y": val.MustParse(pc.A)}, 5.0, map[string]val.V{"z": 2.0}}
+			b := []val.V{map[string]val.V{"x": 1.0 + 3*eps, "y": val.MustParse(pc.B)}, 5.0 + eps/2, map[string]val.V{"z": 2.0 + eps/2}}
+			n := gen.Int(t, "nOps", 2, 10)
+			ops := make([]string, n)
+			for i := range ops {
+				ops[i] = gen.Pick(t, "op", []string{"render", "equals", "diff-again", "equals", "diff-again", "render-patch", "a-json"})
+			}
+			return HistoryCase{A: val.JSON(a), B: val.JSON(b), Opts: pc.Opts, Ops: ops}
+		}
+	}
 	pc := genPairCase(t, []string{"list", "list", "merge", "merge", "set", "mset", "setkeys:id", "set+merge"}, func(p *gen.Profile) {
 		p.VoidRoot = gen.Chance(t, "void", 30)
 		if gen.Chance(t, "objects", 50) {
@@ -341,7 +368,7 @@ var numberLikeKeys = []string{"01", "1e2", "10", "1", "2", "9", "1.5", "0x10", "
 // wideObjectPair: objects with more keys than any block size or small-map
 // threshold, a few values changed.
 func wideObjectPair(t *rapid.T) (val.V, val.V) {
-	n := gen.Int(t, "wideKeys", 64, 140)
+	n := gen.Int(t, "wideKeys", 64, 140*gen.Scale())
 	a, b := map[string]val.V{}, map[string]val.V{}
 	for i := 0; i < n; i++ {
 		k := fmt.Sprintf("k%03d", (i*37)%1000)
@@ -447,7 +474,7 @@ func checkC15Proc(c ProcCase, r *rec.Rec) error {
 }
 
 func genC15Proc(t *rapid.T) ProcCase {
-	pc := genPairCase(t, []string{"list", "set", "set", "mset", "mset", "setkeys:id", "merge", "set+merge"}, func(p *gen.Profile) {
+	pc := genPairCase(t, []string{"list", "set", "set", "mset", "mset", "setkeys:id", "merge", "set+merge", "set+mset", "set+mset", "set+mset+merge"}, func(p *gen.Profile) {
 		p.MaxObj = 6
 		p.VoidRoot = false
 		p.Big = 35
